@@ -85,13 +85,17 @@ func (v *Voxels) readScaledBlock(block *storage.TKeyValue, blockSize dvid.Point,
 	blockBegY := int64(blockBeg.Value(1))
 	blockBegZ := int64(blockBeg.Value(2))
 
+	// Number of voxels along X shared by the block and the requested voxels: dataI and blockI
+	// already point at the first of them, so the copies below index relative to it.
+	numX := int64(dataEnd.Value(0)-dataBeg.Value(0)) + 1
+
 	// Do the transfers depending on shape of the external voxels.
 	switch {
 	case v.DataShape().Equals(dvid.XY):
 		blockI := blockBegZ*bY + blockBegY*bX + blockBegX*bytesPerVoxel
 		dataI := int64(dataBeg.Value(1))*dX + int64(dataBeg.Value(0))*bytesPerVoxel
 		for y := dataBeg.Value(1); y <= dataEnd.Value(1); y++ {
-			for x := int64(dataBeg.Value(0)); x <= int64(dataEnd.Value(0)); x++ {
+			for x := int64(0); x < numX; x++ {
 				data[dataI+x] = (block.V[blockI+x] >> attenuation)
 			}
 			blockI += bX
@@ -102,7 +106,7 @@ func (v *Voxels) readScaledBlock(block *storage.TKeyValue, blockSize dvid.Point,
 		blockI := blockBegZ*bY + blockBegY*bX + blockBegX*bytesPerVoxel
 		dataI := int64(dataBeg.Value(2))*dX + int64(dataBeg.Value(0))*bytesPerVoxel
 		for y := dataBeg.Value(2); y <= dataEnd.Value(2); y++ {
-			for x := int64(dataBeg.Value(0)); x <= int64(dataEnd.Value(0)); x++ {
+			for x := int64(0); x < numX; x++ {
 				data[dataI+x] = (block.V[blockI+x] >> attenuation)
 			}
 			blockI += bY
@@ -112,7 +116,7 @@ func (v *Voxels) readScaledBlock(block *storage.TKeyValue, blockSize dvid.Point,
 	case v.DataShape().Equals(dvid.YZ):
 		bz := blockBegZ
 		for y := int64(dataBeg.Value(2)); y <= int64(dataEnd.Value(2)); y++ {
-			blockI := blockBegZ*bY + blockBegY*bX + blockBegX*bytesPerVoxel
+			blockI := bz*bY + blockBegY*bX + blockBegX*bytesPerVoxel
 			dataI := y*dX + int64(dataBeg.Value(1))*bytesPerVoxel
 			for x := dataBeg.Value(1); x <= dataEnd.Value(1); x++ {
 				data[dataI] = (block.V[blockI] >> attenuation)
@@ -138,7 +142,7 @@ func (v *Voxels) readScaledBlock(block *storage.TKeyValue, blockSize dvid.Point,
 			for dataY := dataBeg.Value(1); dataY <= dataEnd.Value(1); dataY++ {
 				blockI := blockZ*bY + blockY*bX + blockOffset
 				dataI := int64(dataZ)*dY + int64(dataY)*dX + dataOffset
-				for x := int64(dataBeg.Value(0)); x <= int64(dataEnd.Value(0)); x++ {
+				for x := int64(0); x < numX; x++ {
 					data[dataI+x] = (block.V[blockI+x] >> attenuation)
 				}
 				blockY++
